@@ -9,8 +9,9 @@ WellFormed == {"yes", "shortHeader", "badQuestion", "badRdata", "trailing"}
    \* shortHeader: fewer than 12 octets     badQuestion: header readable, question is not
    \* badRdata: header and question readable, a later record is malformed
    \* trailing: a well-formed message followed by extra octets
-QMatch == {"same", "caseVariant", "different", "emptyErr", "emptyOther"}
+QMatch == {"same", "caseVariant", "different", "extra", "emptyErr", "emptyOther"}
    \* caseVariant: the same question, owner name in different letter case
+   \* extra     : the question that was asked plus a second one
    \* emptyErr  : empty question section with rcode FORMERR/SERVFAIL/NOTIMP/REFUSED
    \* emptyOther: empty question section with any other rcode (NOERROR, NXDOMAIN)
 ReplyType == [wf : WellFormed, qr : BOOLEAN, idm : BOOLEAN, opm : BOOLEAN, qm : QMatch, tc : BOOLEAN]
